@@ -42,13 +42,13 @@ def units(tier):
     opieces = {'ops.inc': [Piece(PS, r'void Sieve::set_clear\(bool clear\)'), Piece(PS, r'void Sieve::clear\(\)', rules=TOK),
                            Piece(PS, r'void Sieve::set_sieve_size\(unsigned size\)'),
                            Piece(PS, r'void Sieve::generate_primes\(std::vector<unsigned> &primes, unsigned limit\)',
-                                 rules=[R('auto it = std::upper_bound', 'unsigned *it = std::upper_bound', n=1, why="auto -> the deduced iterator type (a pointer in the stub)")] + TOK),
+                                 rules=[R('auto it = ', 'unsigned *it = ', n=1, why="auto -> the deduced iterator type (std::vector<unsigned>::iterator, a pointer in the stub)")] + TOK),
                            Piece(PS, r'Sieve::iterator::iterator\(unsigned max\)'), Piece(PS, r'Sieve::iterator::iterator\(\)'),
                            Piece(PS, r'Sieve::iterator::~iterator\(\)'),
                            Piece(PS, r'unsigned Sieve::iterator::next_prime\(\)', rules=TOK)]}
     b = "any INV state with cache length 10..30, either _clear, any _sieve_size >= 1; limits below the 30th prime"
     ops = Unit('operations', 'C33', 'contracts/C33/ops.cpp', opieces,
-               [Entry('h_generate', route='F', timeout=300, unwindset=['stub_upper_bound.0:65', 'stub_copy.0:65'], defines={'VCAP': 64}, bounds=b),
+               [Entry('h_generate', route='F', timeout=300, unwindset=['stub_upper_bound.0:65', 'stub_lower_bound.0:65', 'stub_copy.0:65'], defines={'VCAP': 64}, bounds=b),
                 Entry('h_next_prime', route='F', timeout=300, defines={'VCAP': 64}, bounds=b),
                 Entry('h_settings', route='F', timeout=300, defines={'VCAP': 64}, bounds=b)],
                route='F',
